@@ -484,6 +484,15 @@ static void oracle_collapse_props(W &w, const CollapsePre &pre, StepOut &out, co
     }
 }
 
+// C01's quantifier, inherited by the reachable states of C15: no halfface is used by two live cells (see run_hex.cc)
+static bool halfface_in_two_live_cells(W &w) {
+    auto &m = w.mesh;
+    std::set<int> owner;
+    for (int c = 0; c < (int)m.n_cells(); ++c) if (!m.is_deleted(CH(c))) for (auto hf : m.cell(CH(c)).halffaces())
+        if (hf.is_valid() && !owner.insert(hf.idx()).second) return true;
+    return false;
+}
+
 static void oracle_shape(W &w, StepOut &out, bool modified_by_set) {
     auto &m = w.mesh;
     if (modified_by_set) return;       // set_face / set_cell are not tet operations (the property does not list them)
@@ -576,6 +585,7 @@ static void run_script(const std::vector<std::string> &lines) {
                 dump_state(w, o);
                 if (nm == "SetF" || nm == "SetC" || nm == "SetE") tainted = true;
                 if (nm == "Clear") tainted = false;
+                if (halfface_in_two_live_cells(w)) tainted = true;        // out of the contract of the shape statement from here on (until Clear)
                 if ((orc || orc03) && !r.rejected) {
                     StepOut so;
                     if (orc) { oracle_shape(w, so, tainted); oracle_tet_queries(w, so); }
